@@ -1,7 +1,7 @@
 import GeomV.C17.Model
 /-!
 REGENERATED on every run of `bin/check C17` by checks/c17_go2lean.py from
-/repo/encoding/wkt/{point,linestring,polygon,multilinestring,multipolygon,encode}.go — do not edit.
+/repo/encoding/wkt/{point,linestring,polygon,multilinestring,multipolygon,encode,wkt}.go — do not edit.
 `GeomV/C17/Tie.lean` proves these definitions equal to the hand-written model, so the C17 theorems
 are re-checked against what the source says now.
 -/
@@ -92,5 +92,7 @@ def encode (fmt : F → List Char) : Geom F → Except Err (List Char)
   | .polygon v => .ok (appendPolygonWKT fmt [] v)
   | .multiPolygon v => .ok (appendMultiPolygonWKT fmt [] v)
   | _ => .error .unsupported
+
+def errorText (typeName : String) : String := "wkt: unsupported geometry type: " ++ typeName
 
 end GeomV.C17.Gen
